@@ -1,12 +1,441 @@
-"""Leaves of property C15, regenerated from cengine/similarity.pyx on every run.
+"""Leaves of property C15, regenerated from the source tree under check on every run.
 
-All are arithmetic right-hand sides inside `calc` and the per-pair kernels; `cdiv=True`
-gives `/` between integer expressions the C meaning (Cython `cdivision(True)` on typed ints),
-which is what makes `weights[idx] += 1 / 2` the integer 0.
+(1) Native leaves: arithmetic right-hand sides inside `calc`, `calc_one` and the per-pair
+kernels of cengine/similarity.pyx; `cdiv=True` gives `/` between integer expressions the C
+meaning (Cython `cdivision(True)` on typed ints), which is what makes `weights[idx] += 1 / 2`
+the integer 0.  The kernel text indexes with names (`desc[i]`, `values[idx]`); the translator
+maps `x[name]` to the pseudo-name `x_name` natively.
 
-The kernel text indexes with names (`desc[i]`, `values[idx]`); the translator maps
-`x[name]` to the pseudo-name `x_name` natively.
+(2) Derived leaves (round 3, an own small source-to-leaf rewriter like leaves/C18.py): the
+*conditions* and *dispatch tables* of the anchored code are not assignments, so py2lean cannot
+anchor them.  This module reads the current text of `similarity.pyx` (line based) and of
+`rdm/calc_unbalanced.py` (Python `ast`) and writes tiny Python functions into
+`harness/leaves/_C15_derived.py`, which py2lean then translates as usual (spec['file'] is that
+absolute path).  Nothing is cached: the derived file is rewritten on every run.  Every derivation
+fails closed: an unexpected shape of the anchor gives a function calling `__underivable__`,
+which py2lean reports as an untranslatable leaf = broken obligation.
+
+  from similarity.pyx
+    pair_guard / final_guard     `if weight > 0:` / `if weights[idx] > 0:` of `calc` (0/1)
+    adm_cond / self_cond         `if not crossval or not cv_desc[i] == cv_desc[j]:` / `if not crossval:`
+                                 (C truthiness of the int flag: `not crossval` is written `crossval == 0`)
+    same_cond / gt_cond          `if desc[i] == desc[j]:` / `if desc[j] > desc[i]:` (buffer index dispatch)
+    inner_start                  first argument of `for j in range(i + 1, data.shape[0])`
+    one_adm / one_guard / one_final_guard   the three conditions of `calc_one`
+    both_valid                   `if not isnan(vec_i[i]) and not isnan(vec_j[i]):` - must be the same
+                                 text in all four kernels (isnan(.) of the two entries = flags nan_i, nan_j)
+    corr_cond, corr_var_i/_j     `if si2 > 0 and sj2 > 0:` and the arguments of the two `sqrt` calls
+    mahal_weight, mahal_bound    `weight = <float_t> n_dim` (cast stripped; identical in calc, calc_one,
+                                 similarity) and the bound of the loop `sim += vec1[i] * vec3[i]`
+    kern_of_idx_k[_nonoise]      which kernel `method_idx == k` selects (1 euclid, 2 correlation,
+                                 3 mahalanobis, 4 poisson_cv), identical in the three dispatch chains
+  from rdm/calc_unbalanced.py (static evaluation of the if-chains for each argument value)
+    mi_<method>, one_mi_<method> method_idx for each of the six methods (calc_rdm_unbalanced /
+                                 calc_one_similarity)
+    cv_<method>_none/_given      the `crossval` flag handed to the kernel without / with cv_descriptor
+    wi_equal/_number, one_wi_*   weight_idx
 """
+import ast
+import os
+import re
+
+SRC = os.environ.get('RSA_REPO_SRC', '/repo/src/rsatoolbox')
+HERE = os.path.dirname(os.path.abspath(__file__))
+DERIVED = os.path.join(HERE, '_C15_derived.py')
+METHODS = ['euclidean', 'correlation', 'mahalanobis', 'crossnobis', 'poisson', 'poisson_cv']
+KERNEL_CODE = {'euclid': 1, 'correlation': 2, 'mahalanobis': 3, 'poisson_cv': 4}
+
+
+class Underivable(Exception):
+    pass
+
+
+# ---------------------------------------------------------------- .pyx (line based)
+
+def _pyx_body(text, name):
+    lines = text.split('\n')
+    start = None
+    for i, l in enumerate(lines):
+        if re.match(r'\s*(cp?def|def)\b[^\n]*\b' + re.escape(name) + r'\s*\(', l):
+            start = i
+            break
+    if start is None:
+        raise Underivable(f'function {name} not found in similarity.pyx')
+    indent = len(lines[start]) - len(lines[start].lstrip())
+    j = start
+    while not lines[j].rstrip().endswith(':'):
+        j += 1
+    body = []
+    for l in lines[j + 1:]:
+        if l.strip() and (len(l) - len(l.lstrip())) <= indent:
+            break
+        body.append(l)
+    return body
+
+
+def _conds(body):
+    """conditions of all if/elif headers, comments stripped"""
+    out = []
+    for l in body:
+        m = re.match(r'\s*(?:el)?if (.+?):\s*(#.*)?$', l)
+        if m:
+            out.append(m.group(1).strip())
+    return out
+
+
+def _one(conds, pred, what):
+    hits = [c for c in conds if pred(c)]
+    if len(hits) != 1:
+        raise Underivable(f'expected exactly one condition on {what}, found {hits}')
+    return hits[0]
+
+
+def _words(c):
+    return set(re.findall(r'[A-Za-z_][A-Za-z_0-9]*', c))
+
+
+def _flag(cond):
+    """C truthiness of the int flag `crossval`"""
+    cond = re.sub(r'\bnot\s+crossval\b', 'crossval == 0', cond)
+    if re.search(r'(?<![=!<>]= )\bcrossval\b(?! ==)', cond.replace('crossval == 0', '')):
+        raise Underivable(f'bare use of crossval in `{cond}`')
+    return cond
+
+
+def _check_expr(text):
+    try:
+        ast.parse(text, mode='eval')
+    except SyntaxError as exc:
+        raise Underivable(f'`{text}` is not an expression: {exc}')
+    return text
+
+
+def _dispatch_blocks(body):
+    """for every `if method_idx == 1` chain in a function body: {k: (kernel without noise,
+    kernel with noise)} by the kernel functions called in the branch"""
+    chains, cur, k, ind = [], None, None, None
+    for l in body:
+        m = re.match(r'(\s*)(el)?if method_idx == (\d+)\s*:', l)
+        if m:
+            if not m.group(2):
+                cur = {}
+                chains.append(cur)
+                ind = len(m.group(1))
+            if cur is None:
+                raise Underivable('elif method_idx without if')
+            k = int(m.group(3))
+            cur[k] = []
+            continue
+        if cur is not None and k is not None:
+            if l.strip() and (len(l) - len(l.lstrip())) <= ind:
+                k = None
+                cur = None
+                continue
+            cur[k].append(l.strip())
+    out = []
+    for ch in chains:
+        if not any(re.search(r'\b(euclid|correlation|mahalanobis|poisson_cv)\(', l)
+                   for lines in ch.values() for l in lines):
+            continue        # the Poisson precomputation `if method_idx == 4:` calls no kernel
+        d = {}
+        for kk, lines in ch.items():
+            calls = []
+            for l in lines:
+                calls += [('', f) for f in
+                          re.findall(r'\b(euclid|correlation|mahalanobis|poisson_cv)\(', l)]
+            names = [f for _, f in calls]
+            if len(names) == 1:
+                d[kk] = (names[0], names[0])
+            elif len(names) == 2 and lines and lines[0].startswith('if noise is None') \
+                    and any(x.startswith('else') for x in lines):
+                d[kk] = (names[0], names[1])
+            else:
+                raise Underivable(f'method_idx == {kk}: unexpected kernel calls {names}')
+        out.append(d)
+    return out
+
+
+def _derive_pyx(emit):
+    try:
+        text = open(os.path.join(SRC, 'cengine/similarity.pyx')).read()
+        calc = _pyx_body(text, 'calc')
+        one = _pyx_body(text, 'calc_one')
+        err = None
+    except (OSError, Underivable) as exc:
+        calc = one = None
+        text = ''
+        err = exc
+
+    def need(fn):
+        def g():
+            if err is not None:
+                raise err
+            return fn()
+        return g
+
+    cc = lambda: _conds(calc)
+    oc = lambda: _conds(one)
+    emit('pair_guard', ['weight'], need(lambda: '1 if ' + _check_expr(_one(
+        cc(), lambda c: 'weight' in _words(c), 'weight')) + ' else 0'))
+    emit('final_guard', ['weights_idx'], need(lambda: '1 if ' + _check_expr(_one(
+        cc(), lambda c: 'weights' in _words(c), 'weights[idx]')) + ' else 0'))
+    emit('adm_cond', ['crossval', 'cv_desc_i', 'cv_desc_j'], need(lambda: '1 if (' + _check_expr(_flag(_one(
+        cc(), lambda c: 'cv_desc' in _words(c), 'cv_desc'))) + ') else 0'))
+    emit('self_cond', ['crossval'], need(lambda: '1 if (' + _check_expr(_flag(_one(
+        cc(), lambda c: 'crossval' in _words(c) and 'cv_desc' not in _words(c), 'crossval alone'))) + ') else 0'))
+
+    def desc_cond(k):
+        hits = [c for c in cc() if 'desc' in _words(c)]
+        if len(hits) != 2:
+            raise Underivable(f'expected two conditions on desc, found {hits}')
+        return '1 if ' + _check_expr(hits[k]) + ' else 0'
+    emit('same_cond', ['desc_i', 'desc_j'], need(lambda: desc_cond(0)))
+    emit('gt_cond', ['desc_i', 'desc_j'], need(lambda: desc_cond(1)))
+
+    def inner_start():
+        hits = [m.group(1) for m in (re.match(r'\s*for j in range\((.+),\s*data\.shape\[0\]\)\s*:', l)
+                                     for l in calc) if m]
+        if len(hits) != 1:
+            raise Underivable(f'expected one `for j in range(<start>, data.shape[0])`, found {hits}')
+        return _check_expr(hits[0])
+    emit('inner_start', ['i'], need(inner_start))
+    emit('one_adm', ['cv_desc_i_i', 'cv_desc_j_j'], need(lambda: '1 if (' + _check_expr(_one(
+        oc(), lambda c: 'cv_desc_i' in _words(c), 'cv_desc_i')) + ') else 0'))
+    emit('one_guard', ['weight'], need(lambda: '1 if ' + _check_expr(_one(
+        oc(), lambda c: 'weight' in _words(c), 'weight')) + ' else 0'))
+    emit('one_final_guard', ['weight_sum'], need(lambda: '1 if ' + _check_expr(_one(
+        oc(), lambda c: 'weight_sum' in _words(c), 'weight_sum')) + ' else 0'))
+
+    def both_valid():
+        seen = set()
+        for k in ('euclid', 'poisson_cv', 'mahalanobis', 'correlation'):
+            c = [x for x in _conds(_pyx_body(text, k)) if 'isnan' in x]
+            if len(c) != 1:
+                raise Underivable(f'{k}: expected one isnan condition, found {c}')
+            seen.add(c[0])
+        if len(seen) != 1:
+            raise Underivable(f'the four kernels test validity differently: {sorted(seen)}')
+        c = seen.pop()
+        c2 = c.replace('isnan(vec_i[i])', 'nan_i == 1').replace('isnan(vec_j[i])', 'nan_j == 1')
+        if 'isnan' in c2 or 'vec_' in c2:
+            raise Underivable(f'validity test `{c}` is not on vec_i[i], vec_j[i]')
+        return '1 if (' + _check_expr(c2) + ') else 0'
+    emit('both_valid', ['nan_i', 'nan_j'], need(both_valid))
+
+    def corr(what):
+        body = _pyx_body(text, 'correlation')
+        if what == 'cond':
+            return '1 if (' + _check_expr(_one(_conds(body), lambda c: 'si2' in _words(c), 'si2')) + ') else 0'
+        hits = [m.group(1) for m in (re.match(r'\s*sim /= sqrt\((.*)\)\s*$', l) for l in body) if m]
+        if len(hits) != 2:
+            raise Underivable(f'expected two `sim /= sqrt(...)`, found {hits}')
+        return _check_expr(hits[what])
+    emit('corr_cond', ['si2', 'sj2'], need(lambda: corr('cond')))
+    emit('corr_var_i', ['si2', 'si', 'n_dim'], need(lambda: corr(0)))
+    emit('corr_var_j', ['sj2', 'sj', 'n_dim'], need(lambda: corr(1)))
+
+    def mahal_weight():
+        seen = set()
+        for fn, cnt in (('calc', 2), ('calc_one', 1), ('similarity', 1)):
+            hits = [m.group(1).strip() for m in (re.match(r'\s*weight = (.+)$', l)
+                                                 for l in _pyx_body(text, fn)) if m]
+            if len(hits) != cnt:
+                raise Underivable(f'{fn}: expected {cnt} `weight = ...`, found {hits}')
+            seen.update(hits)
+        if len(seen) != 1:
+            raise Underivable(f'mahalanobis weight differs between call sites: {sorted(seen)}')
+        return _check_expr(re.sub(r'<\s*float_t\s*>\s*', '', seen.pop()))
+    emit('mahal_weight', ['n_dim', 'n_finite'], need(mahal_weight))
+
+    def mahal_bound():
+        body = [l for l in _pyx_body(text, 'mahalanobis') if l.strip()]
+        for a, b in zip(body, body[1:]):
+            m = re.match(r'\s*for i in range\((.+)\)\s*:', a)
+            if m and re.match(r'\s*sim \+= vec1\[i\] \* vec3\[i\]\s*$', b):
+                return _check_expr(m.group(1))
+        raise Underivable('the loop `sim += vec1[i] * vec3[i]` of mahalanobis was not found')
+    emit('mahal_bound', ['n_dim', 'n_finite'], need(mahal_bound))
+
+    def kern(k, with_noise):
+        chains = _dispatch_blocks(calc) + _dispatch_blocks(one)
+        if len(chains) != 3:
+            raise Underivable(f'expected 3 method_idx dispatch chains (calc: self, pair; calc_one), found {len(chains)}')
+        if any(ch != chains[0] for ch in chains) or sorted(chains[0]) != [1, 2, 3, 4]:
+            raise Underivable(f'the dispatch chains differ or do not cover 1..4: {chains}')
+        return str(KERNEL_CODE[chains[0][k][1 if with_noise else 0]])
+    for k in (1, 2, 3, 4):
+        emit(f'kern_of_idx_{k}', [], need(lambda k=k: kern(k, True)))
+    emit('kern_of_idx_3_nonoise', [], need(lambda: kern(3, False)))
+
+
+# ---------------------------------------------------------------- calc_unbalanced.py (ast)
+
+_ALLOWED = (ast.Compare, ast.BoolOp, ast.UnaryOp, ast.Not, ast.And, ast.Or, ast.Name, ast.Constant,
+            ast.List, ast.Tuple, ast.Load, ast.Eq, ast.NotEq, ast.In, ast.NotIn, ast.Is, ast.IsNot)
+
+
+def _static(stmts, env, want):
+    """evaluate the straight-line if-chains for given argument values; returns the constants
+    assigned to the names in `want`"""
+    env = dict(env)
+    out = {}
+
+    def touches(node):
+        for n in ast.walk(node):
+            if isinstance(n, (ast.Assign, ast.AugAssign, ast.AnnAssign)):
+                tg = n.targets if isinstance(n, ast.Assign) else [n.target]
+                for t in tg:
+                    for x in ast.walk(t):
+                        if isinstance(x, ast.Name) and isinstance(x.ctx, ast.Store) and \
+                                (x.id in want or x.id in env):
+                            return x.id
+        return None
+
+    def ev(test):
+        names = {n.id for n in ast.walk(test) if isinstance(n, ast.Name)}
+        if not names <= set(env):
+            return None
+        if not all(isinstance(n, _ALLOWED) for n in ast.walk(test)):
+            return None
+        return bool(eval(compile(ast.Expression(test), '<cond>', 'eval'), {'__builtins__': {}}, dict(env)))
+
+    def walk(body):
+        for s in body:
+            if isinstance(s, ast.If):
+                r = ev(s.test)
+                if r is None:
+                    t = touches(s)
+                    if t:
+                        raise Underivable(f'`{t}` is assigned under the undecidable test `{ast.unparse(s.test)}`')
+                    continue
+                walk(s.body if r else s.orelse)
+            elif isinstance(s, ast.Assign) and len(s.targets) == 1 and isinstance(s.targets[0], ast.Name) \
+                    and (s.targets[0].id in want or s.targets[0].id in env):
+                name = s.targets[0].id
+                if not isinstance(s.value, ast.Constant):
+                    if name == 'dataset':
+                        continue
+                    raise Underivable(f'`{name} = {ast.unparse(s.value)}` is not a constant')
+                if name in want:
+                    out[name] = s.value.value
+                else:
+                    env[name] = s.value.value
+            elif isinstance(s, ast.Raise):
+                raise Underivable('the call raises for these arguments')
+            elif isinstance(s, ast.Return):
+                return
+            else:
+                t = touches(s)
+                if t and t != 'dataset':
+                    raise Underivable(f'`{t}` is assigned in `{ast.unparse(s)[:60]}`')
+    walk(stmts)
+    return out
+
+
+def _py_func(name):
+    tree = ast.parse(open(os.path.join(SRC, 'rdm/calc_unbalanced.py')).read())
+    for node in ast.walk(tree):
+        if isinstance(node, ast.FunctionDef) and node.name == name:
+            return node
+    raise Underivable(f'function {name} not found in rdm/calc_unbalanced.py')
+
+
+def _single_branch():
+    fn = _py_func('calc_rdm_unbalanced')
+    tops = [s for s in fn.body if isinstance(s, ast.If) and 'isinstance(dataset' in ast.unparse(s.test)]
+    if len(tops) != 1 or not tops[0].orelse:
+        raise Underivable('the `if isinstance(dataset, Iterable): ... else:` split was not found')
+    return tops[0].orelse
+
+
+def _const(d, key):
+    if key not in d or not isinstance(d[key], int) or isinstance(d[key], bool) or d[key] < 0:
+        raise Underivable(f'no natural constant assigned to {key} ({d.get(key)!r})')
+    return str(d[key])
+
+
+def _derive_py(emit):
+    W = {'method_idx', 'weight_idx', 'crossval'}
+    for m in METHODS:
+        for cvn, cvv in (('none', None), ('given', 'fold')):
+            def f(m=m, cvv=cvv, key='crossval'):
+                return _const(_static(_single_branch(), {'method': m, 'weighting': 'number',
+                                                        'descriptor': 'cond', 'cv_descriptor': cvv}, W), key)
+            emit(f'cv_{m}_{cvn}', [], f)
+        emit(f'mi_{m}', [], lambda m=m: _const(_static(
+            _single_branch(), {'method': m, 'weighting': 'number', 'descriptor': 'cond',
+                               'cv_descriptor': 'fold'}, W), 'method_idx'))
+        emit(f'one_mi_{m}', [], lambda m=m: _const(_static(
+            _py_func('calc_one_similarity').body, {'method': m, 'weighting': 'number'}, W), 'method_idx'))
+    for w in ('equal', 'number'):
+        emit(f'wi_{w}', [], lambda w=w: _const(_static(
+            _single_branch(), {'method': 'euclidean', 'weighting': w, 'descriptor': 'cond',
+                               'cv_descriptor': None}, W), 'weight_idx'))
+        emit(f'one_wi_{w}', [], lambda w=w: _const(_static(
+            _py_func('calc_one_similarity').body, {'method': 'euclidean', 'weighting': w}, W), 'weight_idx'))
+
+
+def _derive_slices(emit):
+    """`self_sim = rdm[:len(unique_cond)]`, `rdm = rdm[len(unique_cond):]`,
+    `np.triu_indices(len(unique_cond), 1)` of calc_rdm_unbalanced"""
+    def assigns(target):
+        hits = [n for n in ast.walk(ast.Module(body=_single_branch(), type_ignores=[]))
+                if isinstance(n, ast.Assign) and len(n.targets) == 1
+                and ast.unparse(n.targets[0]) == target]
+        hits.sort(key=lambda n: n.lineno)
+        return hits
+
+    def slice_bound(target, which):
+        hits = [h for h in assigns(target) if isinstance(h.value, ast.Subscript)
+                and isinstance(h.value.slice, ast.Slice) and ast.unparse(h.value.value) == 'rdm']
+        if len(hits) != 1:
+            raise Underivable(f'expected one `{target} = rdm[...]` slice, found {len(hits)}')
+        sl = hits[0].value.slice
+        lo, hi = sl.lower, sl.upper
+        if sl.step is not None or (which == 'stop' and (lo is not None or hi is None)) or \
+                (which == 'start' and (hi is not None or lo is None)):
+            raise Underivable(f'unexpected slice `{ast.unparse(hits[0].value)}`')
+        return ast.unparse(hi if which == 'stop' else lo)
+    emit('self_stop', ['len_unique_cond'], lambda: slice_bound('self_sim', 'stop'))
+    emit('cross_start', ['len_unique_cond'], lambda: slice_bound('rdm', 'start'))
+
+    def triu(k):
+        hits = assigns('(row_idx, col_idx)') + assigns('row_idx, col_idx')
+        if len(hits) != 1 or not isinstance(hits[0].value, ast.Call) or \
+                ast.unparse(hits[0].value.func) != 'np.triu_indices' or len(hits[0].value.args) != 2 \
+                or hits[0].value.keywords:
+            raise Underivable('`row_idx, col_idx = np.triu_indices(n, k)` was not found')
+        return ast.unparse(hits[0].value.args[k])
+    emit('triu_n', ['len_unique_cond'], lambda: triu(0))
+    emit('triu_k', [], lambda: triu(1))
+
+
+def _derive():
+    out = ['# DERIVED by harness/leaves/C15.py from the source tree under check - do not edit', '']
+    specs = []
+
+    def emit(name, params, body_fn):
+        try:
+            body = body_fn()
+        except Exception as exc:  # noqa: BLE001  (fail closed: any surprise = underivable)
+            body = '__underivable__(' + repr(str(exc)[:200]) + ')'
+        out.append(f'def {name}({", ".join(params)}):')
+        out.append(f'    return {body}')
+        out.append('')
+        specs.append((name, params))
+
+    _derive_pyx(emit)
+    _derive_py(emit)
+    _derive_slices(emit)
+    text = '\n'.join(out)
+    if not (os.path.exists(DERIVED) and open(DERIVED).read() == text):
+        with open(DERIVED + '.tmp', 'w') as f:
+            f.write(text)
+        os.replace(DERIVED + '.tmp', DERIVED)
+    return specs
+
+
+_SPECS = _derive()
 
 PYX = 'cengine/similarity.pyx'
 _IDX = {'n': 'Nat', 'desc_i': 'Nat', 'desc_j': 'Nat'}
@@ -60,3 +489,45 @@ LEAVES = [
     dict(name='corrScale', file=PYX, func='correlation', kind='assign', target='sim', nth=2,
          count=3, params={'sim': 'A', 'n_dim': 'Nat'}, ret='A', cdiv=True, augmented=False),
 ]
+
+# ---- round 3: more native leaves (calc_one accumulators, kernel terms)
+_ONE = dict(file=PYX, func='calc_one', kind='assign', cdiv=True)
+LEAVES += [
+    dict(name='oneValNumber', target='value', nth=1, count=5, params={'sim': 'A'}, ret='A',
+         augmented=True, **_ONE),
+    dict(name='oneValEqual', target='value', nth=2, count=5, params={'sim': 'A', 'weight': 'A'}, ret='A',
+         augmented=True, **_ONE),
+    dict(name='oneFinalDiv', target='value', nth=3, count=5, params={'value': 'A', 'weight_sum': 'A'},
+         ret='A', augmented=False, **_ONE),
+    dict(name='oneWNumber', target='weight_sum', nth=1, count=3, params={'weight': 'A'}, ret='A',
+         augmented=True, **_ONE),
+    dict(name='oneWEqual', target='weight_sum', nth=2, count=3, params={}, ret='Int',
+         augmented=True, **_ONE),
+    dict(name='euclidTerm', file=PYX, func='euclid', kind='assign', target='sim', nth=0, count=1,
+         params={'vec_i_i': 'A', 'vec_j_i': 'A'}, ret='A', cdiv=True, augmented=True),
+    dict(name='euclidW', file=PYX, func='euclid', kind='assign', target='weight', nth=0, count=1,
+         params={}, ret='Int', cdiv=True, augmented=True),
+    dict(name='poissonTerm', file=PYX, func='poisson_cv', kind='assign', target='sim', nth=0, count=2,
+         params={'vec_i_i': 'A', 'vec_j_i': 'A', 'log_vec_i_i': 'A', 'log_vec_j_i': 'A'}, ret='A',
+         cdiv=True, augmented=True),
+    dict(name='corrSi2', file=PYX, func='correlation', kind='assign', target='si2', nth=0, count=1,
+         params={'vec_i_i': 'A'}, ret='A', cdiv=True, augmented=True),
+    dict(name='corrSij', file=PYX, func='correlation', kind='assign', target='sij', nth=0, count=1,
+         params={'vec_i_i': 'A', 'vec_j_i': 'A'}, ret='A', cdiv=True, augmented=True),
+]
+
+# ---- round 3: derived leaves (conditions, loop start, dispatch tables)
+_TY = {'weight': 'A', 'weights_idx': 'A', 'weight_sum': 'A', 'si2': 'A', 'sj2': 'A', 'si': 'A',
+       'sj': 'A'}
+_RET_A = {'corr_var_i', 'corr_var_j', 'mahal_weight'}
+
+
+def _camel(n):
+    parts = n.split('_')
+    return parts[0] + ''.join(p[:1].upper() + p[1:] for p in parts[1:])
+
+
+for _name, _params in _SPECS:
+    LEAVES.append(dict(name=_camel(_name), file=DERIVED, func=_name, kind='func',
+                       params={p: _TY.get(p, 'Nat') for p in _params},
+                       ret='A' if _name in _RET_A else 'Nat', cdiv=True))
